@@ -72,6 +72,30 @@ def _dropFiredImpulses(events: list, t_events: list) -> list:
     ]
 
 
+def _cutOffEvents(events: list, t_events: list, start_time: float, restart_time: float) -> list:
+    r"""Find the scheduled events whose time coincides with the event that stopped the integration.
+
+    Every event is terminal, and of several terminal events found at the same time the solver reports only the first.
+    The integration restarts after the time of the others, where their event function no longer changes sign, so
+    they would never happen: an impulse would be dropped and a finite thrust would never end.
+    """
+    if not any(t_event.size > 0 for t_event in t_events):
+        return []
+    cut_off = []
+    for event, t_event in zip(events, t_events):
+        if t_event.size > 0:
+            continue
+        if isinstance(event, ScheduledImpulse):
+            event_time = event.time
+        elif isinstance(event, ScheduledFiniteThrust) and event._thrusting:  # noqa: SLF001
+            event_time = event.end_time
+        else:
+            continue
+        if start_time <= event_time < restart_time:
+            cut_off.append(event)
+    return cut_off
+
+
 class Celestial(Dynamics, metaclass=ABCMeta):
     r"""The :class:`.Celestial` dynamics class defines the behavior of space-based :class:`agent_base.Agent` objects."""
 
@@ -213,10 +237,21 @@ class Celestial(Dynamics, metaclass=ABCMeta):
                 events,
                 initial_state,
             )
+            restart_time = solution.t[-1] + spacing(solution.t[-1])
+            cut_off = _cutOffEvents(events, solution.t_events, initial_time, restart_time)
             events = _dropFiredImpulses(events, solution.t_events)
+            for event in cut_off:
+                if isinstance(event, ScheduledFiniteThrust):
+                    # Marks the thrust as ended; only its own thrust is switched off, not one that was just armed
+                    event.getStateChangeCallback(event.end_time)
+                    if self.finite_thrust is event.thrust_func:
+                        self.finite_thrust = None
+                else:
+                    initial_state += event.getStateChange(event.time, initial_state[:, 0])[:, None]
+                    events = [other for other in events if other is not event]
 
             # Retrieve final time, this should auto-exit the loop if fully-integrated
-            initial_time = solution.t[-1] + spacing(solution.t[-1])
+            initial_time = restart_time
 
             # A waiting finite thrust whose start coincides with the event that just stopped the integration has its
             # root behind the restart time and would never fire in this call: arm it now.
